@@ -4,7 +4,7 @@ import math
 import numpy as np
 from hypothesis import strategies as st
 
-from vf import gen, ref, llbuild
+from vf import core, gen, ref, llbuild
 
 ID = 'C01'
 BUDGET = {'quick': 3000, 'thorough': 100000}
@@ -196,6 +196,8 @@ def check(case):
                            what='log-likelihood at a re-used buffer after %d in-place updates' % rnd)
                 case.close(np.sum(L.compute_pointwise_ll(buf)), got, rtol=1e-9,
                            what='sum(pointwise) at the re-used buffer')
+                if not core.still_writeable(case, buf, 'LogLikelihood.__call__ / compute_pointwise_ll'):
+                    break
                 buf[j] *= 1.01
 
     with case.clause('posterior'):
